@@ -14,7 +14,19 @@
    real notification of a regular file is emitted by a goroutine started by its own
    HandleChange call, hence after those of its ancestor directories; all others come in path
    order); the timing-dependent hard-link exception (the destination listing is an input at
-   this layer). *)
+   this layer).
+
+   Hard links.  A notification carries the stat AS SENT; the destination gives a new hard link
+   the metadata of the inode it joins (AbsDest.link_stat: os.Link, no rewriteMetadata).  The two
+   agree exactly when the sender is honest — every hard-link entry carries the metadata of the
+   entry it names, which is what every walk produces.  Decidable forms of that hypothesis:
+     recv_honest m d A B      every hard-link change the writer applies announces the stat the
+                              new name then shows (judged along the run; any listings, any mode)
+     links_meta B             listing level: a hard-link entry of B has the mode, uid, gid, size,
+                              mtime, device numbers and xattrs of the entry of B it names
+     link_xattrs_kept d A B   a link target that stays in place (same identity key in A and B)
+                              has the same xattrs in A and B (xattrs are not part of the key)
+   [honesty_needed] below: without it the replayed view differs from the destination. *)
 From Coq Require Import List NArith Bool Sorting.Sorted.
 From FS Require Import Sx Model.Path Model.Stat Model.Diff Model.AbsDest
   Proofs.DiffP Proofs.AbsDestP Proofs.ReceiveP Proofs.ReplayP Proofs.NotifyOrderP.
@@ -24,33 +36,64 @@ Open Scope N_scope.
 
 Notation idf := (fun s : stat => s).
 
-(* Unconditional part: for ALL listings, both modes, even when the transfer stops on an error,
-   replaying the notifications on the consumer's view of the old destination gives exactly
-   the consumer's view of the destination as the writer left it (stat as sent + digest of
-   header and stored bytes for every path; removed subtrees gone). *)
+(* No hypothesis on the listings: for ALL listings, both modes, even when the transfer stops on
+   an error — provided the hard-link changes applied are honest — replaying the notifications on
+   the consumer's view of the old destination gives exactly the consumer's view of the
+   destination as the writer left it (the stat each path shows + digest of header and stored
+   bytes; removed subtrees gone). *)
 Theorem notify_replays_any : forall (H : bytes -> bytes) (hdr : stat -> bytes) d A B m,
+  recv_honest m d A B = true ->
   let r := receive_abs H hdr m d A B in
   replay (ds_notifs r) (nview H hdr (dest_of A)) = nview H hdr (ds_map r).
 Proof. exact ReceiveP.notify_replays_any. Qed.
 
 (* ... and under the hypotheses (both listings sorted and ancestor-closed, hard links name an
-   earlier regular entry, same identity key => same bytes) the transfer does not fail and that
-   new destination is the source's view: at every path the same identity key as the source's
-   entry and, for regular files and hard links, the same bytes; nothing where the source has
-   nothing. *)
+   earlier regular entry and carry its metadata, same identity key => same bytes, link targets
+   that stay in place have the source's xattrs) the transfer does not fail, every hard-link
+   change is honest, and that new destination is the source's view: at every path the same
+   identity key as the source's entry and, for regular files and hard links, the same bytes;
+   nothing where the source has nothing. *)
 Theorem notify_replays : forall (H : bytes -> bytes) (hdr : stat -> bytes) d A B,
   wf_listing (map fst A) -> wf_listing (map fst B) -> links_ok B -> identity_faithful d A B ->
+  links_meta B -> link_xattrs_kept d A B ->
   let r := receive_abs H hdr Fresh d A B in
   ds_err r = false /\
+  recv_honest Fresh d A B = true /\
   replay (ds_notifs r) (nview H hdr (dest_of A)) = nview H hdr (ds_map r) /\
   forall p, view_equiv (alookup p (ds_map r)) (efind p B).
 Proof.
-  intros H hdr d A B HwA HwB Hl Hf. cbv zeta.
-  destruct (receive_fresh_proof H hdr d A B HwA HwB Hl Hf) as (He & _ & Hv & _).
-  split; auto. split; auto. apply (ReceiveP.notify_replays_any H hdr d A B Fresh).
+  intros H hdr d A B HwA HwB Hl Hf Hm Hxk. cbv zeta.
+  destruct (receive_fresh_proof H hdr d A B HwA HwB Hl Hf Hm) as (He & _ & Hv & _).
+  pose proof (receive_fresh_honest H hdr d A B HwA HwB Hl Hf Hm Hxk) as Hh.
+  split; auto. split; auto. split; auto. apply (ReceiveP.notify_replays_any H hdr d A B Fresh Hh).
 Qed.
 
-(* The notifications are exactly the images of the changes of the specification (C02
+(* With an honest sender that is not known to keep xattrs (the weaker listing-level hypothesis):
+   still no failure and the source's identity key and bytes at every path. *)
+Theorem transfer_shows_source : forall (H : bytes -> bytes) (hdr : stat -> bytes) d A B,
+  wf_listing (map fst A) -> wf_listing (map fst B) -> links_ok B -> identity_faithful d A B ->
+  links_meta B ->
+  let r := receive_abs H hdr Fresh d A B in
+  ds_err r = false /\ forall p, view_equiv (alookup p (ds_map r)) (efind p B).
+Proof.
+  intros H hdr d A B HwA HwB Hl Hf Hm. cbv zeta.
+  destruct (receive_fresh_proof H hdr d A B HwA HwB Hl Hf Hm) as (He & _ & Hv & _). auto.
+Qed.
+
+(* ... and whatever metadata the hard-link entries carry: no failure, every path of the source
+   present as a directory / non-directory like the source's entry, with the source's bytes, and
+   with the source's identity key unless it is a hard link. *)
+Theorem transfer_shows_source_weak : forall (H : bytes -> bytes) (hdr : stat -> bytes) d A B,
+  wf_listing (map fst A) -> wf_listing (map fst B) -> links_ok B -> identity_faithful d A B ->
+  let r := receive_abs H hdr Fresh d A B in
+  ds_err r = false /\ forall p, view_equiv_w (alookup p (ds_map r)) (efind p B).
+Proof.
+  intros H hdr d A B HwA HwB Hl Hf. cbv zeta.
+  destruct (receive_fresh_weak H hdr d A B HwA HwB Hl Hf) as (He & _ & Hv & _). auto.
+Qed.
+
+(* (No honesty needed from here to notify_digest.)
+   The notifications are exactly the images of the changes of the specification (C02
    diff_changes_exact): one per added path, one per common path whose identity differs — a
    regular file whose content is transferred is announced as ADD, everything else with the
    kind of the change —, one delete per top-most removed path; nothing for a path that exists
@@ -88,6 +131,7 @@ Proof. exact ReplayP.replay_order_independent. Qed.
    the completion order of the file contents — rebuild the view of the new destination. *)
 Theorem notify_order_independent : forall (H : bytes -> bytes) (hdr : stat -> bytes) d A B,
   wf_listing (map fst A) -> wf_listing (map fst B) -> links_ok B -> identity_faithful d A B ->
+  links_meta B -> link_xattrs_kept d A B ->
   let r := receive_abs H hdr Fresh d A B in
   forall ns', Permutation (ds_notifs r) ns' -> ancestors_first ns' ->
   forall p, alookup p (replay ns' (nview H hdr (dest_of A))) = alookup p (nview H hdr (ds_map r)).
@@ -97,6 +141,8 @@ Print Assumptions notify_replays_any.
 Print Assumptions replay_order_independent.
 Print Assumptions notify_order_independent.
 Print Assumptions notify_replays.
+Print Assumptions transfer_shows_source.
+Print Assumptions transfer_shows_source_weak.
 Print Assumptions notify_exact.
 Print Assumptions notify_digest.
 
@@ -119,14 +165,54 @@ Definition exA : list entry :=
 Definition exB : list entry :=
   [ (dir pa 493, []); (file p_ax 1, [1;1;1]); (file pb 5, [8;8]) ].
 
+(* exB plus c as a NEW NAME of the unchanged a/x (c was a file of its own), honestly announced *)
+Definition exBl : list entry := exB ++ [ (mk pc 420 0 0 3 1 p_ax, [1;1;1]) ].
+(* the same, announced with another mode and owner than a/x has *)
+Definition exBd : list entry := exB ++ [ (mk pc 384 7 0 3 1 p_ax, [1;1;1]) ].
+
 Example hypotheses_satisfiable :
-  wf_listing (map fst exA) /\ wf_listing (map fst exB) /\ links_ok exB
-  /\ identity_faithful DMetadata exA exB.
+  (wf_listing (map fst exA) /\ wf_listing (map fst exB) /\ links_ok exB
+   /\ identity_faithful DMetadata exA exB /\ links_meta exB /\ link_xattrs_kept DMetadata exA exB)
+  /\ (wf_listing (map fst exBl) /\ links_ok exBl /\ identity_faithful DMetadata exA exBl
+      /\ links_meta exBl /\ link_xattrs_kept DMetadata exA exBl).
 Proof.
-  split; [apply listing_ok_b_iff; vm_compute; reflexivity|].
-  split; [apply listing_ok_b_iff; vm_compute; reflexivity|].
-  split; [apply links_ok_b_sound; vm_compute; reflexivity|].
-  apply identity_faithful_b_sound; vm_compute; reflexivity.
+  split.
+  - split; [apply listing_ok_b_iff; vm_compute; reflexivity|].
+    split; [apply listing_ok_b_iff; vm_compute; reflexivity|].
+    split; [apply links_ok_b_sound; vm_compute; reflexivity|].
+    split; [apply identity_faithful_b_sound; vm_compute; reflexivity|].
+    split; [apply links_meta_b_sound; vm_compute; reflexivity|].
+    apply link_xattrs_kept_b_sound; vm_compute; reflexivity.
+  - split; [apply listing_ok_b_iff; vm_compute; reflexivity|].
+    split; [apply links_ok_b_sound; vm_compute; reflexivity|].
+    split; [apply identity_faithful_b_sound; vm_compute; reflexivity|].
+    split; [apply links_meta_b_sound; vm_compute; reflexivity|].
+    apply link_xattrs_kept_b_sound; vm_compute; reflexivity.
+Qed.
+
+(* an honest new hard link: announced as a modify with a header-only digest, it shares inode
+   class and bytes with a/x, and the replayed view is the destination *)
+Example example_link_notification :
+  let r := receive_abs Hx hx Fresh DMetadata exA exBl in
+  recv_honest Fresh DMetadata exA exBl = true
+  /\ nth_error (ds_notifs r) 2 = Some (KModify, pc, Some (mk pc 420 0 0 3 1 p_ax, [99; 0]))
+  /\ option_map de_ino (alookup pc (ds_map r)) = option_map de_ino (alookup p_ax (ds_map r))
+  /\ option_map de_bytes (alookup pc (ds_map r)) = Some [1;1;1]
+  /\ replay (ds_notifs r) (nview Hx hx (dest_of exA)) = nview Hx hx (ds_map r).
+Proof. vm_compute. repeat split; reflexivity. Qed.
+
+(* the hypothesis is needed: a hard link announced with another mode and owner than its target
+   shows the target's (the inode's) — the notification says 0600 uid 7, the destination has
+   0644 uid 0, under the announced path and link name *)
+Example honesty_needed :
+  let r := receive_abs Hx hx Fresh DMetadata exA exBd in
+  ds_err r = false
+  /\ links_ok exBd /\ recv_honest Fresh DMetadata exA exBd = false /\ links_meta_b exBd = false
+  /\ option_map fst (alookup pc (replay (ds_notifs r) (nview Hx hx (dest_of exA)))) = Some (mk pc 384 7 0 3 1 p_ax)
+  /\ option_map fst (alookup pc (nview Hx hx (ds_map r))) = Some (mk pc 420 0 0 3 1 p_ax).
+Proof.
+  cbv zeta. split; [vm_compute; reflexivity|]. split; [apply links_ok_b_sound; vm_compute; reflexivity|].
+  vm_compute. repeat split; reflexivity.
 Qed.
 
 (* the directory whose mode changed is notified (modify, header-only digest), the file
